@@ -177,7 +177,8 @@ class Rendered:
     def __init__(self) -> None:
         self.lines: list[str] = []
         self.files: dict[str, str] = {}       # included source files
-        self.stmt_line: dict[int, int] = {}   # id(statement dict) -> zero-based line of its first line
+        self.stmt_line: dict[int, int] = {}   # id(statement dict) -> zero-based line of its first line (within its file)
+        self.stmt_file: dict[int, str] = {}   # id(statement dict) -> included file it was rendered into (absent = main file)
 
 
 def render(prog: list, lay: Layout = CANON, out: Rendered | None = None, depth: int = 0) -> Rendered:
@@ -200,7 +201,11 @@ def _emit(r: Rendered, lay: Layout, depth: int, text: str, st: dict | None = Non
     if lay.on("blank", 0.2):
         r.lines.append("")
     if lay.on("comments", 0.15):
-        r.lines.append(_ind(lay, depth) + "; " + lay.rng.choice(["note", "x = 1", "lda #0 ; nested", "{", "'quote"]))
+        pool = ["note", "x = 1", "lda #0 ; nested", "{", "'quote"]
+        if lay.k.get("exotic_comments"):
+            # characters some line splitters treat as line ends; inside a comment they are just comment text
+            pool += ["page\x0cbreak", "vt\x0bhere", "sep\x1c\x1d\x1e", "nel\x85x", "ls\u2028ps\u2029"]
+        r.lines.append(_ind(lay, depth) + "; " + lay.rng.choice(pool))
     if lay.on("block_comments", 0.1):
         if lay.rng.random() < 0.5:
             r.lines.append(_ind(lay, depth) + "/* block comment */")
@@ -302,6 +307,9 @@ def _render_stmt(st: dict, lay: Layout, r: Rendered, depth: int) -> None:
         _render_list(st["b"], lay, sub, 0)
         r.files[st["f"]] = "\n".join(sub.lines) + "\n"
         r.files.update(sub.files)
+        for sid, ln in sub.stmt_line.items():
+            r.stmt_line[sid] = ln
+            r.stmt_file[sid] = sub.stmt_file.get(sid, st["f"])
         _emit(r, lay, depth, f".include '{st['f']}'", st)
     elif k == "include_ips":
         _emit(r, lay, depth, f".include_ips '{st['f']}', {render_expr(st['delta'], lay)}", st)
